@@ -223,6 +223,16 @@ def parse_structured_value(name: str, field: Dict, context: ParseContext) -> Def
         raise NotImplementedError("This should be unreachable!")
 
     plugin = None
+    if not isinstance(function_name, str):
+        raise exc.DataGenSyntaxError(
+            f"Function names should be strings, not `{function_name}`",
+            **context.line_num(field),
+        )
+    if function_name.count(".") > 1:
+        raise exc.DataGenSyntaxError(
+            f"Function names should have only one '.' in them: {function_name}",
+            **context.line_num(field),
+        )
     if "." in function_name:
         namespace, name = function_name.split(".")
         plugin = context.parser_macros_plugins.get(namespace)
